@@ -83,7 +83,7 @@ def _worker(args):
             c = core.Ctx(pre, d.timeout_ms or timeout_ms)
             core._CTX = c
             rec = {"trace": None, "obls": [], "outcome": "", "error": "", "solver_secs": 0.0, "queries": 0,
-                   "covers": []}
+                   "covers": [], "arms": []}
             try:
                 u = U(c)
                 try:
@@ -93,7 +93,7 @@ def _worker(args):
                     for fid, info in u.fn_infos.items():
                         infos[fid] = {"module": info.module, "qualname": info.qualname, "sha256": info.sha256,
                                       "lineno": info.lineno, "loops": len(info.loops), "awaits": len(info.awaits),
-                                      "file": info.file}
+                                      "file": info.file, "arms": list(info.arms)}
             except core.Infeasible:
                 rec["outcome"] = "infeasible"
             except core.PathEnd:
@@ -109,6 +109,13 @@ def _worker(args):
             rec["solver_secs"] = c.solver_secs
             rec["queries"] = c.n_queries
             rec["covers"] = sorted(c.covers)
+            if c.marks and rec["outcome"] == "end":
+                # arms of the real text entered on this path count only if the path is still satisfiable at its end
+                try:
+                    if c._check() != core.z3.unsat:
+                        rec["arms"] = sorted(c.marks)
+                except Exception:  # noqa: BLE001 - bookkeeping only
+                    rec["arms"] = sorted(c.marks)
             out_paths.append(rec)
             work.extend(c.alternatives)
         return {"unit": unit_name, "paths": out_paths, "pending": work, "errors": errors, "infos": infos,
